@@ -382,7 +382,9 @@ func isSubpath(base, target string) bool {
 }
 
 func sanitizePathSegment(value string) (string, error) {
-	if value == "" || !safePathSegmentRe.MatchString(value) {
+	if value == "" || value == "." || value == ".." || !safePathSegmentRe.MatchString(value) {
+		// "." and ".." consist of allowed characters but do not name anything
+		// below the directory they are joined onto
 		return "", fmt.Errorf("invalid path segment: %s", value)
 	}
 	return value, nil
